@@ -395,6 +395,9 @@ fn strip_param(name: &str) -> String {
 }
 
 impl Property for C02 {
+    fn hang_is_violation(&self) -> bool {
+        true
+    }
     fn id(&self) -> &'static str {
         "C02"
     }
